@@ -21,8 +21,9 @@ let dump_dfa (sm : dstate list) =
     done;
     print_string "\n") sm
 
-let match_inputs sm inputs =
+let match_inputs ?(spec = fun _ -> None) sm inputs =
   List.iteri (fun k s ->
+    if Array.length Sys.argv > 2 then (match spec (bytes_of_string s) with Some (t, l) -> Printf.printf "SPEC %d %d %d\n" k (int_of_nat t) (int_of_nat l) | None -> Printf.printf "SPEC %d -1 -1\n" k);
     let (ev, rt) = dfa_match sm (k mod 2 = 0) sp0 (bytes_of_string s) in
     (match rt with Some (t, l) -> Printf.printf "M %d %d %d\n" k (int_of_nat t) (int_of_nat l) | None -> Printf.printf "M %d -1 -1\n" k);
     let e = String.concat "" (List.map lex_event_str ev) in
@@ -50,7 +51,9 @@ let () =
           Printf.printf "ANALYZE ok %d\n" predicted;
           if predicted <= nmax then begin
             match build_expr r with
-            | Some sm -> Printf.printf "BUILD ok size %d\n" (List.length sm); dump_dfa sm; match_inputs sm (List.rev !inputs)
+            | Some sm -> Printf.printf "BUILD ok size %d\n" (List.length sm);
+                if Array.length Sys.argv > 2 then Printf.printf "VALID %b\n" (lexer_ok sm [TRegex r]);
+                dump_dfa sm; match_inputs ~spec:(spec_longest [TRegex r]) sm (List.rev !inputs)
             | None -> print_string "BUILD fuel\n"
           end else print_string "BUILD skipped-too-large\n"
     end else begin
@@ -59,8 +62,11 @@ let () =
         | 1 -> Some (TString (bytes_of_string s))
         | _ -> (match parse s with Some r -> Some (TRegex r) | None -> None)) !terms in
       if List.mem None ts then print_string "THROW Regex parse error\n" else
-      match create_lexer (List.map (function Some t -> t | None -> assert false) ts) with
-      | Some sm -> Printf.printf "LEXER size %d\n" (List.length sm); dump_dfa sm; match_inputs sm (List.rev !inputs)
+      let tl = List.map (function Some t -> t | None -> assert false) ts in
+      match create_lexer tl with
+      | Some sm -> Printf.printf "LEXER size %d\n" (List.length sm);
+          if Array.length Sys.argv > 2 then Printf.printf "VALID %b\n" (lexer_ok sm tl);
+          dump_dfa sm; match_inputs ~spec:(spec_longest tl) sm (List.rev !inputs)
       | None -> print_string "LEXER fuel\n"
     end);
     print_string "ENDCASE\n" in
